@@ -33,6 +33,12 @@ def _apply(root: Path, edits):
                 return f"skipped: function {new} not found / no locals"
             p.write_text(s2)
             continue
+        if old == "@commute_mult":
+            s2 = transforms.commute_mult(s, new)
+            if s2 is None:
+                return f"skipped: function {new} not found / no products"
+            p.write_text(s2)
+            continue
         if old == "@reformat":
             p.write_text(transforms.reformat(s))
             continue
